@@ -113,7 +113,7 @@ def cs_internals(text, name):
             hbody = body[hs:j - 1]
             ev = dict(ev=hm.group(1), blocks=[])
             pos = 0
-            toks = re.compile(r"\s*(?:if \(context\.(\w+)\(\)\)\s*)?\{([^{}]*)\}", re.S)
+            toks = re.compile(r"\s*(?:if \(context\.([\w:]+)\(\)\)\s*)?\{([^{}]*)\}", re.S)
             while True:
                 bm = toks.match(hbody, pos)
                 if not bm:
@@ -121,10 +121,10 @@ def cs_internals(text, name):
                 blk = dict(guard=bm.group(1), body=[])
                 for st in [x.strip() for x in bm.group(2).split(";") if x.strip()]:
                     # (the helper ignores its type parameter: `sm.Exit()` is the same step - leaving the current state)
-                    m1 = re.match(r"^sm\.Exit(?:<(\w+)>)?\(\)$", st)
-                    m2 = re.match(r"^sm\.Enter<(\w+)>\(\)$", st)
-                    m3 = re.match(r"^sm\.estate = E%sState\.(\w+)$" % re.escape(name), st)
-                    m4 = re.match(r"^context\.(\w+)\(data\)$", st)
+                    m1 = re.match(r"^sm\.Exit(?:<([\w:]+)>)?\(\)$", st)
+                    m2 = re.match(r"^sm\.Enter<([\w:]+)>\(\)$", st)
+                    m3 = re.match(r"^sm\.estate = E%sState\.([\w:]+)$" % re.escape(name), st)
+                    m4 = re.match(r"^context\.([\w:]+)\(data\)$", st)
                     if m1:
                         blk["body"].append(["exit", m1.group(1) or cls["state"]])
                     elif m2:
